@@ -14,7 +14,26 @@ from snakeoil.sequences import iflatten_instance
 from ..ebuild.atom import atom
 from ..operations import repo
 from ..restrictions import boolean, packages, restriction, values
-from ..restrictions.util import collect_package_restrictions
+
+
+def _candidate_restrictions(restrict, attrs, nested=False):
+    """Yield the package restrictions on ``attrs`` usable for narrowing candidates.
+
+    Only a restriction every matching package has to satisfy (one alternative
+    of) may narrow the search: anything below a negated grouping, below a
+    grouping other than AND/OR, or negated itself is skipped.  The restriction
+    being queried is yielded even if negated; the caller handles its negation.
+    """
+    if isinstance(restrict, (list, tuple)):
+        for r in restrict:
+            yield from _candidate_restrictions(r, attrs, True)
+    elif isinstance(restrict, (boolean.AndRestriction, boolean.OrRestriction)):
+        if not restrict.negate:
+            for r in restrict.restrictions:
+                yield from _candidate_restrictions(r, attrs, True)
+    elif isinstance(restrict, packages.PackageRestriction):
+        if restrict.attr in attrs and not (nested and restrict.negate):
+            yield restrict
 
 
 class CategoryLazyFrozenSet:
@@ -320,8 +339,8 @@ class tree:
             return self._fast_identify_candidates(restrict, sorter)
         dsolutions = [
             (
-                [c.restriction for c in collect_package_restrictions(x, ("category",))],
-                [p.restriction for p in collect_package_restrictions(x, ("package",))],
+                [c.restriction for c in _candidate_restrictions(x, ("category",))],
+                [p.restriction for p in _candidate_restrictions(x, ("package",))],
             )
             for x in restrict.iter_dnf_solutions(True)
         ]
@@ -379,13 +398,7 @@ class tree:
         cat_exact = set()
         pkg_exact = set()
 
-        for x in collect_package_restrictions(
-            restrict,
-            (
-                "category",
-                "package",
-            ),
-        ):
+        for x in _candidate_restrictions(restrict, ("category", "package")):
             if x.attr == "category":
                 cat_restrict.add(x.restriction)
             elif x.attr == "package":
@@ -397,7 +410,9 @@ class tree:
             e.update(x.exact for x in l)
         del l
 
-        if restrict.negate:
+        # only a lone PackageRestriction can arrive here negated with anything collected
+        negate = getattr(restrict, "negate", False)
+        if negate:
             cat_exact = pkg_exact = ()
 
         if cat_exact:
@@ -414,7 +429,7 @@ class tree:
                 cat_restrict.add(values.ContainmentMatch(frozenset(cat_exact)))
                 cats_iter = sorter(self._cat_filter(cat_restrict))
         elif cat_restrict:
-            cats_iter = self._cat_filter(cat_restrict, negate=restrict.negate)
+            cats_iter = self._cat_filter(cat_restrict, negate=negate)
         else:
             cats_iter = sorter(self.categories)
 
@@ -429,7 +444,7 @@ class tree:
                 pkg_restrict.add(values.ContainmentMatch(frozenset(pkg_exact)))
 
         if pkg_restrict:
-            return self._package_filter(cats_iter, pkg_restrict, negate=restrict.negate)
+            return self._package_filter(cats_iter, pkg_restrict, negate=negate)
         elif not cat_restrict:
             if sorter is iter and not cat_exact:
                 return self.versions
